@@ -13,3 +13,7 @@ package compresshttp
 //@   on call io.Copy(_, _) ret (n, e): copied = (e == nil)
 //@   on call invoke io.Closer.Close(c) ret (e): closed = (e == nil && copied)
 //@   ensures @success_only_when_source_was_read_to_its_end_and_the_stream_closed ret0 == nil ==> copied && closed
+//@
+//@ func selectEncoding
+//@   property C11
+//@   nopanic
